@@ -151,6 +151,16 @@ def import_cases() -> list[dict]:
         mk({"main.exps": 'import "./a.exps";\ndef 0 { ~lib(); }\n', "a.exps": M + R}, rin=True),
         mk({"main.exps": 'import "./a.exps";\ndef 0 { ~lib(); }\n', "a.exps": 'import "./b.exps";\n' + M, "b.exps": "macro other() { o(); }\ncoro C { c(); }\n"}, rin=True),
         mk({"main.exps": 'import "./a.exps";\ndef 0 { ~lib(); }\n', "a.exps": M + "def 0 { alias previous; }\n"}, rin=True),
+    ] + [
+        # every kind of routine header, alone / before / after the macros of the imported file, directly and through a second import
+        mk({"main.exps": 'import "./a.exps";\ndef 0 { ~lib(); }\n', "a.exps": (rt + M) if first else (M + rt)}, rin=True)
+        for rt in ("def 0 for actor ACTOR_X { r(); }\n", "def 0 for object 3 { r(); }\n", "def 0 for performer P { r(); }\n", "def 0 for_actor(OLD) { r(); }\n",
+                   "def 0 for_object(4) { r(); }\n", "def 0 for actor ACTOR_X { alias previous; }\n", "coro C_IN { r(); }\n", "def 7 { r(); }\n",
+                   "def 0 for actor A { a(); }\ndef 1 for object 2 { b(); }\n")
+        for first in (False, True)
+    ] + [
+        mk({"main.exps": 'import "./a.exps";\ndef 0 { ~lib(); }\n', "a.exps": 'import "./b.exps";\n' + M, "b.exps": "macro other() { o(); }\n" + rt}, rin=True)
+        for rt in ("def 0 for actor ACTOR_X { r(); }\n", "def 0 for_performer(Q) { r(); }\n")
     ]
 
 
